@@ -10,10 +10,14 @@ from ..exact import decode
 INF = 9999
 
 
-def build_cover(rng, n_motifs, cyclic, kinds=("e", "e", "t", "k4", "c4", "d")):
+def build_cover(rng, n_motifs, cyclic, kinds=("e", "e", "t", "k4", "c4", "d", "h", "c5")):
     """motifs pairwise sharing at most one vertex; tree-like by construction, optionally closed by one extra edge motif.
     returns list of (id, verts, edges)"""
     def shape(kind, vs):
+        if kind == "h":      # house: 5-cycle with one chord (induced 4-cycle and triangle-with-pendant have equal counts)
+            return [(vs[i], vs[(i + 1) % 5]) for i in range(5)] + [(vs[0], vs[2])]
+        if kind == "c5":
+            return [(vs[i], vs[(i + 1) % 5]) for i in range(5)]
         if kind == "e":
             return [(vs[0], vs[1])]
         if kind == "t":
@@ -23,7 +27,7 @@ def build_cover(rng, n_motifs, cyclic, kinds=("e", "e", "t", "k4", "c4", "d")):
         if kind == "c4":
             return [(vs[i], vs[(i + 1) % 4]) for i in range(4)]
         return [(vs[0], vs[1]), (vs[1], vs[2]), (vs[2], vs[3]), (vs[3], vs[0]), (vs[0], vs[2])]     # chorded 4-cycle (diamond)
-    size = {"e": 2, "t": 3, "k4": 4, "c4": 4, "d": 4}
+    size = {"e": 2, "t": 3, "k4": 4, "c4": 4, "d": 4, "h": 5, "c5": 5}
     motifs = []
     nxt = 0
     for mid in range(n_motifs):
@@ -94,7 +98,7 @@ def run_once(case):
         @_H_tau.setter
         def _H_tau(self, d):
             self.__dict__["_H"] = RecDict(d)
-    tr = {"kind": "run", "case": case, "cover": [{"id": mid, "V": vs} for mid, vs, _e in motifs], "nodes": [int(v) for v in G.nodes()],
+    tr = {"kind": "run", "case": case, "cover": [{"id": mid, "V": vs, "E": [list(e) for e in es]} for mid, vs, es in motifs], "nodes": [int(v) for v in G.nodes()],
           "N": G.order(), "phi_kind": phi_kind, "iterations": case["iterations"], "events_known": False, "init_keys": [], "init_all_half": True,
           "updates": [], "final_reads": [], "raised": "", "answer_is_zero": False, "answer_decided": False,
           "answer": {"n": 0, "ok": False, "D": 1}, "table": [], "xmax": 0}
@@ -139,7 +143,14 @@ def run_once(case):
                 k, v = e[1], e[2]
                 tr["updates"].append({"f": int(k[0]), "m": int(k[1]), "wrote": [int(k[0]), int(k[1])], "prods_keys": pk,
                                       "reads": [[int(r[0][0]), int(r[0][1])] for r in reads], "rx": [_exp(r[1]) for r in reads],
-                                      "wx": _exp(v)})
+                                      "wx": _exp(v), "spot": False, "K": 0, "wn": 0, "wok": True})
+                if phi == 0.5 and all(r[1] == 0.5 for r in reads):
+                    # spot check: inputs all at the start value, the written message is an exactly computable dyadic rational
+                    medges = next((len(es) for mid, _vs, es in motifs if mid == k[1]), 0)
+                    K = medges + len(reads)
+                    if K <= 28:
+                        n, ok = decode(v, 2 ** K, tol=1e-4)
+                        tr["updates"][-1].update({"spot": True, "K": K, "wn": n, "wok": bool(ok)})
                 reads, pk = [], []
         tr["final_reads"] = [[int(r[0][0]), int(r[0][1])] for r in reads]
         if len(tr["updates"]) > 4000:
@@ -218,21 +229,21 @@ def run(chk):
     rng = _r.Random(chk.seed)
     traces = []
     covers = []
-    for i in range(60 if thorough else 10):
+    for i in range(60 if thorough else 8):
         covers.append(build_cover(rng, rng.randrange(2, 6), cyclic=(i % 3 == 2)))
     # the MC's own covers
     covers.append([(1, [1, 2, 3], [(1, 2), (1, 3), (2, 3)]), (2, [1, 4], [(1, 4)]), (3, [2, 5], [(2, 5)])])
     covers.append([(1, [1, 2], [(1, 2)]), (2, [2, 3], [(2, 3)]), (3, [3, 1], [(3, 1)])])
     for ci, motifs in enumerate(covers):
-        for phi in (0, 1, 0.3, 0.85):
+        for phi in (0, 1, 0.5, 0.3, 0.85):
             for it in ((1, 2, 5) if phi in (0, 1) else (1, 3)):
                 traces.append(run_once({"motifs": motifs, "phi": phi, "iterations": it}))
         traces.append(run_once({"motifs": motifs, "phi": 1, "iterations": 30}))
         traces.append(run_history({"motifs": motifs, "phis": rng.sample([0, 0.1, 0.25, 0.5, 0.5, 0.75, 1, 1, 0.3, 0.9, 0.15], 6),
                                    "iterations": rng.choice([1, 5, 25])}))
-        for it in ((1, 5, 25) if (thorough or ci % 4 == 0) else (rng.choice([1, 5, 25]),)):
-            traces.append(run_curve({"motifs": motifs, "points": 40 if thorough else 20, "iterations": it}))
-        if thorough or ci % 2 == 0:
+        for it in ((1, 5, 25) if (thorough or ci % 4 == 0) else (rng.choice([1, 5]),)):
+            traces.append(run_curve({"motifs": motifs, "points": 40 if thorough else (20 if ci % 4 == 0 else 10), "iterations": it}))
+        if thorough or ci % 3 == 0:
             # away from slow-convergence points: 300 against 301 sweeps must agree to 1e-5
             for phi in (0.15, 0.5):
                 traces.append(run_converge({"motifs": motifs, "phi": phi, "iterations": 300}))
@@ -244,6 +255,8 @@ def run(chk):
     chk.judge("MessagePassingTrace", "MessagePassingTrace.cfg", traces, label="C17", key_fn=_key, heap="3g", parallel=8)
     chk.nontrivial = len({str(t["case"]) for t in traces})
     chk.extra["updates_validated"] = sum(len(t["updates"]) for t in runs)
+    chk.extra["updates_recomputed_exactly_at_phi_one_half"] = sum(1 for t in runs for u in t["updates"] if u.get("spot"))
+    chk.extra["updates_recomputed_exactly_at_phi_zero_or_one"] = sum(len(t["updates"]) for t in runs if t["phi_kind"] != "interior")
     chk.extra["rule"] = "one case = one theoretical(phi) call with every message-table access recorded, one query history, one phi curve or one convergence pair; all distinct"
     chk.assumptions += ["equality with the fixed point at interior phi is compositional: every update multiplies exactly the right messages (validated at every phi), "
                         "each motif contributes its exact expectation (C15), values are recomputed exactly at phi in {0,1}, and 80 vs 81 iterations agree to 1e-6",
